@@ -367,6 +367,133 @@ def fixed_cases(ctx, cfgs):
     return n, fails
 
 
+LOOP_SRC = """
+cnt: public(uint256)
+
+@external
+def r1(a: {T}) -> uint256:
+    n: uint256 = 0
+    for i: {T} in range(a, bound={N}):
+        n += 1
+        self.cnt = n
+        if n == {N} + 3:
+            break
+    return n
+
+@external
+def r2(a: {T}, b: {T}) -> uint256:
+    n: uint256 = 0
+    for i: {T} in range(a, b, bound={N}):
+        n += 1
+        self.cnt = n
+        if n == {N} + 3:
+            break
+    return n
+
+@external
+def r2sum(a: {T}, b: {T}) -> {T}:
+    # the loop variable takes exactly the values a, a+1, ..., b-1
+    last: {T} = a
+    for i: {T} in range(a, b, bound={N}):
+        last = i
+    return last
+
+@external
+def dyn(xs: DynArray[{T}, {N}]) -> uint256:
+    n: uint256 = 0
+    for x: {T} in xs:
+        n += 1
+        if n == {N} + 3:
+            break
+    return n
+
+@external
+def sta(xs: {T}[{N}]) -> uint256:
+    n: uint256 = 0
+    for x: {T} in xs:
+        n += 1
+        if n == {N} + 3:
+            break
+    return n
+
+@external
+def lit() -> uint256:
+    n: uint256 = 0
+    for i: {T} in range({LO}, {LO} + {N}):
+        n += 1
+        if n == {N} + 3:
+            break
+    return n
+"""
+
+
+def loop_matrix(ctx, cfgs):
+    """Every loop form x loop-variable type x configuration, with run-time start / end at the type bounds and spans around the
+    bound and around 2^(bits-1), 2^bits: the body counts its iterations (and gives up after N+3).
+    Oracle (docs): range(a, b, bound=N) reverts iff a > b or b - a > N, else runs exactly b - a times; never more than N."""
+    from eth_abi import encode
+    rnd = ctx.rng("loops")
+    types = [(False, 8), (True, 8), (True, 128), (False, 256), (True, 256)] + rnd.sample([(s_, b_) for b_ in range(16, 256, 8) for s_ in (False, True)], 2 if ctx.tier == "quick" else 8)
+    n = fails = 0
+    for T in types:
+        tn = ("int" if T[0] else "uint") + str(T[1])
+        lo, hi = (-(2 ** (T[1] - 1)), 2 ** (T[1] - 1) - 1) if T[0] else (0, 2 ** T[1] - 1)
+        for N in ((4,) if ctx.tier == "quick" else (1, 4, 7)):
+            if N + 3 > hi:
+                continue
+            src = LOOP_SRC.format(T=tn, N=N, LO=lo)
+            spans = sorted({0, 1, N - 1, N, N + 1, N + 2, 2 ** (T[1] - 1) - 1, 2 ** (T[1] - 1), 2 ** (T[1] - 1) + 1, 2 ** T[1] - 1, 2 ** T[1] - 2})
+            starts = sorted({lo, lo + 1, -1 if T[0] else 1, 0, 1, hi - N, hi - 1, hi, -(2 ** (T[1] - 2)) if T[0] else 2 ** (T[1] - 2)})
+            pairs = {(a, a + sp) for a in starts for sp in spans if lo <= a <= hi and lo <= a + sp <= hi}
+            pairs |= {(hi, lo), (0, lo) if T[0] else (1, 0), (hi, hi - 1)}
+            for cfg in cfgs:
+                code = compile_full(src, cfg)
+                if isinstance(code, Exception):
+                    ctx.violation("correspondence-broken", "loop matrix contract does not compile", {"config": cfg.name, "type": tn, "error": str(code)[:300]})
+                    continue
+                ch = Chain(cfg.evm)
+                addr = ch.deploy(bytes.fromhex(code[2:]))
+
+                def call(sig, tys, args, signed_out=False):
+                    r = ch.call(addr, selector(sig) + encode(tys, args))
+                    if not r.ok:
+                        return "revert"
+                    v = int.from_bytes(r.out, "big")
+                    return v - 2**256 if signed_out and v >= 2**255 else v
+
+                def expect(what, got, want, callrepr):
+                    nonlocal fails
+                    if got != want:
+                        fails += 1
+                        over = isinstance(got, int) and isinstance(want, (int, str)) and (want == "revert" or got > N)
+                        ctx.violation("failing-input", f"{what} on {tn} (bound={N}): expected {want}, observed {got}"
+                                      + (" -- the loop ran although its span exceeds the bound" if over else ""),
+                                      {"source": src, "call": callrepr, "config": cfg.name, "expected": str(want), "observed": str(got)},
+                                      key=f"c11:loop:{what}:{'signed' if T[0] else 'unsigned'}{T[1]}:{'venom' if cfg.venom else 'legacy'}")
+
+                for a, b in sorted(pairs):
+                    want = (b - a) if (a <= b and b - a <= N) else "revert"
+                    expect("range(a, b, bound=N)", call(f"r2({tn},{tn})", [tn, tn], [a, b]), want, f"r2({a}, {b})")
+                    n += 1
+                    if isinstance(want, int):
+                        expect("range(a, b, bound=N) loop variable", call(f"r2sum({tn},{tn})", [tn, tn], [a, b], T[0]), (b - 1 if b > a else a), f"r2sum({a}, {b})")
+                        n += 1
+                for a in sorted({lo, -1 if T[0] else 0, 0, 1, N - 1, N, N + 1, min(hi, 2 ** (T[1] - 1) - 1), hi}):
+                    want = a if 0 <= a <= N else "revert"
+                    expect("range(a, bound=N)", call(f"r1({tn})", [tn], [a]), want, f"r1({a})")
+                    n += 1
+                for k in range(N + 1):
+                    xs = [lo, hi, 0, 1, lo + 1, hi - 1, 2][:k]
+                    expect("for x in DynArray", call(f"dyn({tn}[])", [f"{tn}[]"], [xs]), k, f"dyn({xs})")
+                    n += 1
+                expect("for x in DynArray (too long)", call(f"dyn({tn}[])", [f"{tn}[]"], [[0] * (N + 1)]), "revert", f"dyn([0]*{N + 1})")
+                expect("for x in static array", call(f"sta({tn}[{N}])", [f"{tn}[{N}]"], [[lo, hi, 0, 1, 2, 3, 4][:N]]), N, "sta(...)")
+                expect("range(LO, LO + N)", call("lit()", [], []), N, "lit()")
+                n += 3
+    ctx.corr["loop_matrix"] = {"types": [("int" if t[0] else "uint") + str(t[1]) for t in types], "configurations": [c.name for c in cfgs], "calls": n}
+    return n, fails
+
+
 def run(ctx):
     rnd = ctx.rng("gen")
     gen = G.Gen(rnd)
@@ -514,6 +641,11 @@ def run(ctx):
     ctx.corr["fixed_case_compiles"] = nx
     ctx.corr["evaluations"] += nx
     nfail += fx
+    loop_cfgs = [Config(False, "none", "cancun"), Config(False, "gas", "cancun"), Config(False, "codesize", "cancun"),
+                 Config(True, "none", "cancun"), Config(True, "gas", "cancun"), Config(True, "codesize", "cancun"), Config(True, "O3", "cancun")]
+    nl, fl = loop_matrix(ctx, loop_cfgs if ctx.tier == "quick" else loop_cfgs + configs_all(ctx))
+    ctx.corr["evaluations"] += nl
+    nfail += fl
     nb, fb = bound_probes(ctx, dyn_cfgs if ctx.tier == "quick" else configs_all(ctx))
     ctx.corr["bound_probe_calls"] = nb
     ctx.corr["evaluations"] += nb
